@@ -241,6 +241,7 @@ def discharge(ex, ops, outs, obligations, assumptions, obligations_fn=None, seed
               family='?', bounds=None, witness_fn=None, stats=None, int_vars=()):
     """decide all obligations; returns a family result"""
     st = stats or rcore.Stats()
+    deadline = time.time() + 8 * timeout_s           # wall budget of one family: beyond it the family is undecided, not silently truncated
     assume = list(assumptions) + list(ex.defs) + list(ex.nopanic)
     xs = ops_vars(ops)
     res = dict(bounds=bounds, obligations=len(obligations), discharged=0, symbolic_inputs=len(xs) + len(int_vars),
@@ -267,6 +268,8 @@ def discharge(ex, ops, outs, obligations, assumptions, obligations_fn=None, seed
             # obligation by obligation through the cheap stages; only the residue goes to exact NRA
             rest = []
             for o in live:
+                if time.time() > deadline:
+                    rest.append(o); continue
                 r1, _ = rcore.solve(st, assume, o.bad, timeout_s, seed, stages=(0, 1), label=family + ' : ' + o.label)
                 if r1 != 'unsat': rest.append(o)
             res['discharged'] = len(obligations) - len(rest)
@@ -295,6 +298,8 @@ def discharge(ex, ops, outs, obligations, assumptions, obligations_fn=None, seed
                     # isolate obligation by obligation (smaller queries), confirm natively
                     tcap = max(5, min(timeout_s, 20))
                     for o in live:
+                        if time.time() > deadline:
+                            status, detail = 'undecided', 'family time budget (%d s) exhausted with obligations left' % (8 * timeout_s); break
                         r1, m1 = rcore.solve(st, assume, o.bad, tcap, seed)
                         if r1 == 'unsat':
                             res['discharged'] += 1; continue
